@@ -687,7 +687,15 @@ def run(ctx):
                             'a vector that collects values is handed to `%s`: it may lose or reorder what it holds; not decidable here' % short(e))
 
     # ---- pass 2, the completions: what the maps receive when the values of the attribute are exhausted
-    seen = set()
+    def tested_for_emptiness(pc):
+        """the terms whose emptiness / length the path condition talks about"""
+        out = []
+        for a, _t in pc:
+            for c in absx.leaves(a, lambda x: x[0] == 'call' and x[1].rsplit('::', 1)[-1] in ('is_empty', 'len') and len(x[2]) == 1):
+                if c[2][0] not in out:
+                    out.append(c[2][0])
+        return out
+    seen, infeasible = set(), 0
     for o in paths:
         d = info[id(o)]
         if not d['ok']:
@@ -713,12 +721,6 @@ def run(ctx):
         any_bin = True if is_text is False else E
         sit = ('%s value, ' % ('UTF-8' if is_text else 'non-UTF-8') if is_text is not None else 'values exhausted, ') + \
               ('an earlier value was non-UTF-8' if E else 'no earlier non-UTF-8 value' if E is False else 'earlier values unknown')
-        if not A and not [e for e in Bm if short(e) in MUTATORS]:
-            ctx.fail('V2.attribute-stored', 'generic attribute', loc(B.root), 'on some path an attribute is stored in neither map'); continue
-        if any_bin is None:
-            ctx.fail('V2.mixed-attribute-moves-text-to-bin_attrs', sit, loc(B.root),
-                     'the attribute is completed on a path that does not know whether one of its values was not UTF-8'); continue
-        seen.add(('complete', any_bin))
         test = d.get('test')
         def text_vector(t, test=test, is_text=is_text):
             """the collection of text values: filter_map/map over the value set whose element is the decoded v (or skipped when v is not
@@ -728,6 +730,25 @@ def run(ctx):
             return test is not None and t[0] == 'many' and values_src_ok(t[1]) and t[3] == (('variant', test[1], test[2], 0) if is_text else ('skip',))
         def as_bytes(t, pred):
             return pred(t) or (t[0] == 'many' and t[3] == t[2] and pred(t[1]))
+        # what the path has found out about the text collection being empty (`is_empty()`, `len()` against 0): a collection that holds
+        # the decoded text of the generic value v is not empty, whatever else it holds - a path that claims so is taken for no value
+        # list at all; and appending an empty collection changes nothing, so a path that knows the text collection to be empty may
+        # leave that append out
+        text_empty = None
+        for X in tested_for_emptiness(o.st.pc):
+            if text_vector(X) or as_bytes(X, text_vector):
+                claim = emptiness(o.st.pc, X)
+                if claim is not None:
+                    text_empty = claim
+        if text_empty and is_text:
+            infeasible += 1
+            continue
+        if not A and not [e for e in Bm if short(e) in MUTATORS]:
+            ctx.fail('V2.attribute-stored', 'generic attribute', loc(B.root), 'on some path an attribute is stored in neither map'); continue
+        if any_bin is None:
+            ctx.fail('V2.mixed-attribute-moves-text-to-bin_attrs', sit, loc(B.root),
+                     'the attribute is completed on a path that does not know whether one of its values was not UTF-8'); continue
+        seen.add(('complete', any_bin))
         inserts = [e for e in A if short(e) == 'insert']
         if not any_bin:
             ok = len(inserts) == 1 and len(A) == 1 and not Bm and inserts[0][2][0] == amap and len(inserts[0][2]) == 3 and is_type(inserts[0][2][1]) and text_vector(inserts[0][2][2])
@@ -739,10 +760,12 @@ def run(ctx):
         okx = all(short(e) in ('extend', 'append') and len(e[2]) == 2 and keyed(e[2][0]) for e in muts)
         texts = [e for e in muts if okx and as_bytes(e[2][1], text_vector)]
         bins = [e for e in muts if okx and binb in vecs and e[2][1] == o.st.env.get(binb)]
-        okx = okx and len(texts) == 1 and len(bins) == (1 if binb in vecs else 0) and len(muts) == len(texts) + len(bins)
+        okx = okx and (len(texts) == 1 or (text_empty and not texts)) and len(bins) == (1 if binb in vecs else 0) and len(muts) == len(texts) + len(bins)
         ctx.add('V2.mixed-attribute-moves-text-to-bin_attrs', sit, loc(B.root), okx and not A,
                 'once any value of the attribute is not UTF-8, the text values collected (and the binary ones, if collected apart) must be appended (as bytes) to bin_attrs[type] and the '
                 'attribute must not appear in `attrs`: attrs %s, bin_attrs %s' % ([short(e) for e in A], [short(e) for e in Bm]))
+    if infeasible:
+        ctx.note('%d generic paths claim that a text collection holding the value at hand is empty: infeasible' % infeasible)
     for need in (('text', False), ('binary', False), ('text', True), ('binary', True)):
         ctx.add('V2.coverage', '%s value, earlier binary=%s' % need, loc(B.root), need in seen, 'no path for this situation')
     for need in (False, True):
